@@ -58,6 +58,7 @@ fn c18_generate_minmax_wide() {
 
 /// the sequence is a pure function of the seed
 #[kani::proof]
+#[kani::stub(std::time::SystemTime::now, stub_now)] // the clock is an arbitrary instant: a seed-dependent read of it breaks purity
 fn c18_purity() {
     let seed: u64 = kani::any();
     kani::assume(seed < M);
@@ -194,6 +195,7 @@ fn c18_tensor_random_double() {
 
 /// purity, one step, every state
 #[kani::proof]
+#[kani::stub(std::time::SystemTime::now, stub_now)] // the clock is an arbitrary instant: a seed-dependent read of it breaks purity
 fn c18_purity_one_step() {
     let seed: u64 = kani::any();
     kani::assume(seed < M);
@@ -206,6 +208,7 @@ fn c18_purity_one_step() {
 
 /// purity, two steps, seeds below 2^16
 #[kani::proof]
+#[kani::stub(std::time::SystemTime::now, stub_now)] // the clock is an arbitrary instant: a seed-dependent read of it breaks purity
 fn c18_purity_two_steps_small_seeds() {
     let seed: u64 = kani::any();
     kani::assume(seed < (1 << 16));
